@@ -26,13 +26,13 @@ pub enum Pending {
     UpgradeDrain(usize),
 }
 
-#[derive(Default, Debug, Clone)]
-struct LockState {
-    readers: Vec<usize>,
-    upgradable: Option<usize>,
-    writer: Option<usize>,
+#[derive(Default, Debug, Clone, PartialEq, Eq, Hash, PartialOrd, Ord)]
+pub struct LockState {
+    pub readers: Vec<usize>,
+    pub upgradable: Option<usize>,
+    pub writer: Option<usize>,
     /// WRITER_BIT taken by a thread that still waits for readers to drain
-    claim: Option<usize>,
+    pub claim: Option<usize>,
 }
 
 #[derive(Clone, Debug)]
@@ -219,24 +219,7 @@ impl Shared {
             LockOp::ReleaseRead | LockOp::ReleaseUpgradable | LockOp::ReleaseWrite => {
                 {
                     let mut g = self.ctl.lock().unwrap();
-                    let l = g.locks.entry(addr).or_default();
-                    match op {
-                        LockOp::ReleaseRead => {
-                            if let Some(i) = l.readers.iter().position(|t| *t == tid) {
-                                l.readers.remove(i);
-                            }
-                        }
-                        LockOp::ReleaseUpgradable => {
-                            if l.upgradable == Some(tid) {
-                                l.upgradable = None;
-                            }
-                        }
-                        _ => {
-                            if l.writer == Some(tid) {
-                                l.writer = None;
-                            }
-                        }
-                    }
+                    lock_release(g.locks.entry(addr).or_default(), tid, op);
                     if let Some(i) = g.held[tid].iter().rposition(|(a, _)| *a == addr) {
                         g.held[tid].remove(i);
                     }
@@ -254,45 +237,57 @@ fn enabled(g: &Ctl, tid: usize) -> bool {
         Some(p) => p,
         None => return false,
     };
-    let get = |a: usize| g.locks.get(&a).cloned().unwrap_or_default();
-    match p {
-        Pending::Start | Pending::Resume => true,
-        Pending::Read(a) => {
-            let l = get(a);
-            l.writer.is_none() && l.claim.is_none()
-        }
-        Pending::Upgradable(a) => {
-            let l = get(a);
-            l.writer.is_none() && l.claim.is_none() && l.upgradable.is_none()
-        }
-        Pending::WriteClaim(a) => {
-            let l = get(a);
-            l.writer.is_none() && l.claim.is_none() && l.upgradable.is_none()
-        }
-        Pending::WriteDrain(a) | Pending::UpgradeDrain(a) => get(a).readers.iter().all(|t| *t == tid),
-        Pending::UpgradeClaim(a) => {
-            let l = get(a);
-            l.writer.is_none() && l.claim.is_none()
-        }
+    match pending_addr(p) {
+        None => true,
+        Some(a) => match g.locks.get(&a) {
+            Some(l) => lock_enabled(l, tid, p),
+            None => lock_enabled(&LockState::default(), tid, p),
+        },
     }
 }
 
 fn apply_grant(g: &mut Ctl, tid: usize) {
     let p = g.pending[tid].unwrap();
+    if let Some(a) = pending_addr(p) {
+        lock_apply(g.locks.entry(a).or_default(), tid, p);
+    }
+}
+
+fn pending_addr(p: Pending) -> Option<usize> {
+    match p {
+        Pending::Start | Pending::Resume => None,
+        Pending::Read(a) | Pending::Upgradable(a) | Pending::WriteClaim(a) | Pending::WriteDrain(a) | Pending::UpgradeClaim(a) | Pending::UpgradeDrain(a) => Some(a),
+    }
+}
+
+// ---- the mirror lock table: the only statement about parking_lot's RwLock that the scheduler relies on.
+// `lock_litmus` runs these three functions side by side with the real lock on real threads.
+
+/// May the step `p` of thread `tid` be taken in lock state `l` without the real call blocking?
+pub fn lock_enabled(l: &LockState, tid: usize, p: Pending) -> bool {
+    match p {
+        Pending::Start | Pending::Resume => true,
+        Pending::Read(_) => l.writer.is_none() && l.claim.is_none(),
+        Pending::Upgradable(_) => l.writer.is_none() && l.claim.is_none() && l.upgradable.is_none(),
+        Pending::WriteClaim(_) => l.writer.is_none() && l.claim.is_none() && l.upgradable.is_none(),
+        Pending::WriteDrain(_) | Pending::UpgradeDrain(_) => l.readers.iter().all(|t| *t == tid),
+        Pending::UpgradeClaim(_) => l.writer.is_none() && l.claim.is_none(),
+    }
+}
+
+pub fn lock_apply(l: &mut LockState, tid: usize, p: Pending) {
     match p {
         Pending::Start | Pending::Resume => {}
-        Pending::Read(a) => g.locks.entry(a).or_default().readers.push(tid),
-        Pending::Upgradable(a) => g.locks.entry(a).or_default().upgradable = Some(tid),
-        Pending::WriteClaim(a) => {
-            let l = g.locks.entry(a).or_default();
+        Pending::Read(_) => l.readers.push(tid),
+        Pending::Upgradable(_) => l.upgradable = Some(tid),
+        Pending::WriteClaim(_) => {
             if l.readers.is_empty() {
                 l.writer = Some(tid);
             } else {
                 l.claim = Some(tid);
             }
         }
-        Pending::UpgradeClaim(a) => {
-            let l = g.locks.entry(a).or_default();
+        Pending::UpgradeClaim(_) => {
             if l.readers.is_empty() {
                 l.upgradable = None;
                 l.writer = Some(tid);
@@ -300,17 +295,36 @@ fn apply_grant(g: &mut Ctl, tid: usize) {
                 l.claim = Some(tid);
             }
         }
-        Pending::WriteDrain(a) => {
-            let l = g.locks.entry(a).or_default();
+        Pending::WriteDrain(_) => {
             l.claim = None;
             l.writer = Some(tid);
         }
-        Pending::UpgradeDrain(a) => {
-            let l = g.locks.entry(a).or_default();
+        Pending::UpgradeDrain(_) => {
             l.claim = None;
             l.upgradable = None;
             l.writer = Some(tid);
         }
+    }
+}
+
+pub fn lock_release(l: &mut LockState, tid: usize, op: LockOp) {
+    match op {
+        LockOp::ReleaseRead => {
+            if let Some(i) = l.readers.iter().position(|t| *t == tid) {
+                l.readers.remove(i);
+            }
+        }
+        LockOp::ReleaseUpgradable => {
+            if l.upgradable == Some(tid) {
+                l.upgradable = None;
+            }
+        }
+        LockOp::ReleaseWrite => {
+            if l.writer == Some(tid) {
+                l.writer = None;
+            }
+        }
+        _ => {}
     }
 }
 
